@@ -269,11 +269,12 @@ PROPS["C06"] = {
 
 PROPS["C01"] = {
     "level": "other",
-    "technique": "Verus effect-order contracts on the extracted write path (WAL append before buffer append before the acknowledgement; a WAL failure buffers nothing), on flush_batches (upload, registration, announcements, then WAL truncation, then the persisted mark; a failed flush never moves the mark; under quiescence the mark equals the flushed cover) and the WAL reader / header codec units of C05; two probes record the known findings F3 and F4",
-    "verus": ["c01_durability.rs.in", "c06_ingest.rs.in", "c05_wal_reader.rs.in", "c05_wal_fs.rs.in"],
+    "technique": "Verus contract on the extracted recovery Ingester::ensure_wal (three nested loops: every decodable entry newer than the mark ends up in the buffer or in registered chunks and is covered by last_wal_seq; a flush issued during recovery never persists a mark that covers an entry not completely in chunks; start-up truncation cuts only what the mark covers; at every exit, also failed ones, the mark is safe); Verus effect-order contracts on the extracted write path (WAL append before buffer append before the acknowledgement; a WAL failure buffers nothing), on flush_batches (upload, registration, announcements, then WAL truncation, then the persisted mark; a failed flush never moves the mark; under quiescence the mark equals the flushed cover) and the WAL reader / header codec units of C05; two probes record the known findings F3 and F4",
+    "verus": ["c01_durability.rs.in", "c06_ingest.rs.in", "c05_wal_reader.rs.in", "c05_wal_fs.rs.in", "c01_recovery.rs.in"],
     "kani": ["c05_header"],
     "explanation": "Sequential crash-point core only: between every two effects of write and flush_batches the ordering obligations hold for all inputs and all failure points of the shimmed callees (each effect either happened or not). The schedule quantifier of C01 is NOT covered beyond one rely on the shared sequence cell, and exactly there the property fails today (known findings F3, F4, demonstrated on the real code under /verif/findings). Recovery (ensure_wal) is covered through the WAL reader contract of C05; its re-buffering loop is not under contract yet. OS-level durability of synced bytes is assumed.",
     "assumptions": [
+        "recovery: WalEntry::batches() yields the entry's batches or an error; read_entries_after returns exactly the complete entries newer than the mark in ascending order (C05 units); flush_batches registers everything handed to it and persists mark = last_wal_seq on success, persists no mark on failure (unit flush_batches); an empty buffer accepts every schema",
         "WAL append returns Ok only after the entry is durable (sync_mode EveryWrite); synced bytes survive a crash",
         "object store put / catalog register_chunk either take effect or fail without effect",
         "known finding F3 (probe finding_F3_flush_mark) and F4 (probe finding_F4_append_flush_failure)",
